@@ -702,6 +702,18 @@ def write(I, fr, arr, val, assign=False, prechecked=False):
 # --------------------------------------------------------------------------
 # the `numpy` module
 
+class _Plain(object):
+    """the pointwise / abstract model of numpy (used by the object-array mode for type objects and dtype predicates)"""
+
+    def __init__(self, m):
+        self.m = m
+
+    def pv_getattr(self, I, fr, name):
+        if name in self.m.table:
+            return self.m.table[name]
+        return ip.ExtAttr('numpy', name)
+
+
 class NpModule(object):
     def __init__(self, I):
         self.I = I
@@ -733,6 +745,11 @@ class NpModule(object):
         t['linalg'] = I.PyModule('numpy.linalg', {'norm': ip.Builtin('np.linalg.norm', self.f_norm)})
 
     def pv_getattr(self, I, fr, name):
+        if fr is not None and getattr(fr.st, 'object_arrays', False):
+            from . import objnp
+            if not hasattr(self, '_objnp'):
+                self._objnp = objnp.ObjNpModule(I, _Plain(self))
+            return self._objnp.pv_getattr(I, fr, name)
         if name in self.table:
             return self.table[name]
         return ip.ExtAttr('numpy', name)
